@@ -79,7 +79,7 @@ def cases(ctx):
     if ctx.shard == 0:
         for name, ch in c07.corpus_charts():
             yield {"kind": "corpus", "name": name}
-    n = ctx.split(1500 if quick else 16 * 30000)
+    n = ctx.split(800 if quick else 16 * 30000)
     for i in range(n):
         types = rng.choice(["1234M", "1234M", "234", "1234AFKLM", "12344M3", "23"])
         columns, notes = G.gen_single_stream(rng, types=types, density=rng.choice([0.2, 0.5, 0.8]),
